@@ -1,10 +1,14 @@
 (* C12 — containers handed out or taken in are snapshots; mutating them changes nothing.
    What is provable here: object identity of the containers the library RETAINS — the memo of
    neighbors() answers (MemoAlias.v).  Statements only; proofs in MemoAliasProofs.v.
-   That the other accessors (links, vertices, universes, edge_whitelist, find_links, traversal
-   results) and the constructor / builder arguments are copied is decided by the exhaustive
-   accessor x edit matrix on the implementation (harness legs), not by a theorem: PARTIAL. *)
-From EG Require Import Base MemoAlias MemoAliasProofs.
+   The containers kept in FIELDS (Universe.vertices, Link.vertices, Vertex.links, .universes),
+   taken in by constructors and handed out by accessors are modelled in FieldAlias.v: with a copy
+   on the way in and a copy on the way out, every history of client allocations, constructions from
+   client lists, accessor reads, library mutations and ARBITRARY client edits of any list the client
+   ever held answers like the value-only specification, in which client edits touch no field.
+   Not modelled (decided by the exhaustive accessor x edit matrix on the implementation only): the
+   nested mapping proxy of edge_whitelist, dict-valued attributes=, adjacency inputs: PARTIAL. *)
+From EG Require Import Base MemoAlias MemoAliasProofs FieldAlias FieldAliasProofs.
 
 (* with copy-on-hit and copy-on-insert (the code as it is now), in every history of queries, graph
    mutations, flag toggles and ARBITRARY client edits of any list ever handed out, every query
@@ -27,9 +31,40 @@ Proof. exact query_returns_truth. Qed.
 Theorem C12_refuted_without_copies : exists c ops, manswers false (minit c) ops <> mtruths false (minit c) ops.
 Proof. exact aliasing_refuted_without_copies. Qed.
 
+(* ---- containers kept in fields, taken in and handed out (FieldAlias.v) ---- *)
+(* with both copies (the code as it is), every accessor call of every history answers what the value-only
+   specification answers: the value the field has by the library's own mutators alone *)
+Theorem C12_field_answers_refine_spec : forall ops, fanswers true true finit ops = sanswers sinit ops.
+Proof. exact field_answers_refine_spec. Qed.
+(* the invariant behind it: no list object the library keeps in a field is ever reachable by the client *)
+Theorem C12_field_locations_never_owned :
+  forall ops c, In c (fields (frun true true finit ops)) -> ~ In c (fowned (frun true true finit ops)).
+Proof. exact field_locations_never_owned. Qed.
+(* the field values themselves are the specification's after every history *)
+Theorem C12_field_values_refine_spec :
+  forall ops, map (fun c => get [] c (fcells (frun true true finit ops))) (fields (frun true true finit ops))
+              = sfields (srun sinit ops).
+Proof. exact field_values_refine_spec. Qed.
+(* in the specification a client edit changes no field and answers nothing (the frame the refinement transports) *)
+Theorem C12_spec_client_edit_frame :
+  forall ss loc xs, sfields (fst (sstep ss (FClient loc xs))) = sfields ss /\ snd (sstep ss (FClient loc xs)) = None.
+Proof. exact spec_client_edit_frame. Qed.
+(* each copy is necessary: a constructor that keeps the caller's list, or an accessor that hands out the field *)
+Theorem C12_refuted_without_copy_in : exists ops, fanswers false true finit ops <> sanswers sinit ops.
+Proof. exact refuted_without_copy_in. Qed.
+Theorem C12_refuted_without_copy_out : exists ops, fanswers true false finit ops <> sanswers sinit ops.
+Proof. exact refuted_without_copy_out. Qed.
+
 Print Assumptions C12_client_edits_never_change_answers.
 Print Assumptions C12_answers_independent_of_client_edits.
 Print Assumptions C12_memo_locations_never_escape.
 Print Assumptions C12_query_hands_out_the_truth.
 Print Assumptions C12_refuted_without_copies.
 Print Assumptions copies_example.
+Print Assumptions C12_field_answers_refine_spec.
+Print Assumptions C12_field_locations_never_owned.
+Print Assumptions C12_field_values_refine_spec.
+Print Assumptions C12_spec_client_edit_frame.
+Print Assumptions C12_refuted_without_copy_in.
+Print Assumptions C12_refuted_without_copy_out.
+Print Assumptions field_alias_example.
